@@ -69,7 +69,8 @@ def model(vc, with_prior=False):
     cls = vc.cls('pygom.model.base_ode_model:BaseOdeModel')
     fields = {'_paramList': PList(nP, pid, pix, pdeclared, varcls), '_paramDict': PDict(), '_stochasticParam': None}
     obj = ObjVal(cls, fields)
-    vc.it.builtins_env.vars['dict'] = TypeTag('dict', ctor=lambda it, a, k: SDict(it, 'param_out', empty=True))
+    # dict() is the empty symbolic dict; dict(d) of a symbolic dict is a copy of it (a new object with the same items)
+    vc.it.builtins_env.vars['dict'] = TypeTag('dict', ctor=lambda it, a, k: (a[0].clone(it) if (a and isinstance(a[0], SDict)) else SDict(it, 'param_out', empty=True)))
     vc.summary('pygom.model.base_ode_model:BaseOdeModel.set_sp', lambda it, a, k: it.ctx.note_trusted(
         "BaseOdeModel.set_sp writes only _s and _sp (the symbol order states, t, parameters); it does not touch _paramValue"))
     return nP, obj
@@ -232,7 +233,6 @@ def dict_update(vc):
     if not out.returned:
         return
     d, pv = post_common(vc, obj, nP)
-    vc.ensure('the stored dictionary is updated in place', d is D0)
     j = z3.Int('q_j')
     vc.ensure('every mentioned parameter gets the value supplied for its name',
               z3.ForAll([q], z3.Implies(z3.And(q >= 0, q < m), z3.Select(pv.arr, pix(inn(q))) == inv_(q))))
@@ -305,6 +305,12 @@ def dict_update_foreign(vc):
 def _unchanged(vc, obj, PV0, D0=None):
     vc.ensure('rejected: the positional value list is the same object with the same contents',
               obj.fields.get('_paramValue') is PV0 and z3.simplify(PV0.arr == PV0._arr0) is not None and (PV0.arr is PV0._arr0 or z3.is_true(z3.simplify(PV0.arr == PV0._arr0))))
+    # the class invariant must survive the exceptional exit as well: the stored name -> value holder still describes the values in
+    # use, so that a later partial update (which starts from the holder) keeps every value it does not mention
+    d = obj.fields.get('_parameters')
+    nP = PV0.length
+    vc.ensure('rejected: the stored holder still describes the values in use (nothing of the rejected input is kept)',
+              isinstance(d, SDict) and z3.And(CI(d, nP), REL(d, PV0, nP)), isolated=True)
 
 
 def _prior(vc, obj, nP):
@@ -354,7 +360,21 @@ def reject_pair(vc):
     vc.canary('canary: reachable', z3.BoolVal(False))
 
 
-@contract('C09/parameters/reject-unknown-dict-key', ['C09'], SETTER)
+def _replay_rejected_dict(clause, m):
+    """a rejected dict that also carries a valid name, then a partial update that does not mention that name, on the real setter"""
+    from standins import c09 as sc
+    ops = [{'kind': 'pairs', 'vals': [6.0, 7.0], 'subset': [0, 1], 'perm': [1, 0]},
+           {'kind': 'bad-key', 'vals': [2.5, 2.5], 'subset': [0], 'perm': [0, 1]},
+           {'kind': 'dict-name', 'vals': [3.25, 3.25], 'subset': [1], 'perm': [0, 1]}]
+    try:
+        bad = sc.run_history(2, ops)
+    except Exception as e:
+        bad = ["raises %s: %s" % (type(e).__name__, e)]
+    return {'reproduced': bool(bad), 'observed': bad[:3],
+            'input': "m.parameters = [('gamma', 7.0), ('beta', 6.0)]; m.parameters = {'beta': 2.5, 'zeta': 1.0} (rejected); m.parameters = {'gamma': 3.25}"}
+
+
+@contract('C09/parameters/reject-unknown-dict-key', ['C09'], SETTER, replay=_replay_rejected_dict)
 def reject_key(vc):
     """a dict with a key that is not a declared parameter (by name or by symbol) is rejected; the positional values in use are untouched"""
     nP, obj = model(vc)
